@@ -16,13 +16,48 @@ from .common import wmod, newworld
 CALLS = []
 
 
-def build(dag, defs):
-    newworld()
-    I = []
-    for i, bs in enumerate(dag):
-        attrs = {'__module__': wmod()}
+def tagval(i):
+    """Value of tag 't' on node i; None is a legal value."""
+    return None if i % 3 == 1 else i
+
+
+class Boom(Exception):
+    pass
+
+
+class Observer:
+    """A dependent of node k: looks at node k from inside the notification
+    (everything node k answers must already follow its new __iro__) and, in
+    'raise' mode, fails once so that propagation stops there."""
+
+    def __init__(self, I, defs, k, mode):
+        self.I, self.defs, self.k, self.mode = I, defs, k, mode
+        self.seen = None
+        self.armed = False
+
+    def changed(self, originally_changed):
+        if not self.armed:
+            return
+        I, k = self.I, self.k
+        iro = [_idx(I, x) for x in I[k].__iro__ if x is not Interface]
+        self.seen = self.seen or check_node(I, self.defs, k, iro)
+        if self.mode == 'raise':
+            self.armed = False
+            raise Boom()
+
+
+def _idx(I, x):
+    for j, y in enumerate(I):
+        if y is x:
+            return j
+    raise ValueError(x)
+
+
+def mknode(I, i, bs, defs, mod, label=''):
+    if True:
+        attrs = {'__module__': mod}
         if defs[i]:
-            attrs['x'] = Attribute('x of %d' % i)
+            attrs['x'] = Attribute('x of %d%s' % (i, label))
             attrs['y%d' % i] = Attribute('only in %d' % i)
 
             def inv(ob, i=i):
@@ -30,15 +65,30 @@ def build(dag, defs):
                 if i % 2:
                     raise Invalid('inv%d' % i)
             attrs['__interface_tagged_values__'] = {
-                't': i, 'only%d' % i: 1, 'invariants': [inv]}
-        I.append(InterfaceClass('N%d' % i, tuple(I[b] for b in bs) or (Interface,), attrs))
-    return I
+                't': tagval(i), 'only%d' % i: 1, 'invariants': [inv]}
+        return InterfaceClass('N%d' % i, tuple(I[b] for b in bs) or (Interface,), attrs)
+
+
+def build(dag, defs, obs=None):
+    newworld()
+    mod = wmod()
+    I = []
+    O = None
+    for i, bs in enumerate(dag):
+        I.append(mknode(I, i, bs, defs, mod))
+        if obs and obs[1] == i and obs[2] == 'first':
+            O = Observer(I, defs, i, obs[0])
+            I[i].subscribe(O)
+    if obs and O is None:
+        O = Observer(I, defs, obs[1], obs[0])
+        I[obs[1]].subscribe(O)
+    return I, O, mod
 
 
 def check_all(I, defs):
     n = len(I)
     for i in range(n):
-        iro = [I.index(x) for x in I[i].__iro__ if x is not Interface]
+        iro = [_idx(I, x) for x in I[i].__iro__ if x is not Interface]
         v = check_node(I, defs, i, iro)
         if v:
             return v
@@ -87,13 +137,13 @@ def check_node(I, defs, i, iro):
         if defs[j]:
             if X.get('y%d' % j) is not I[j].direct('y%d' % j) or nd.get('y%d' % j) is not I[j].direct('y%d' % j):
                 return ('description-unique-name', i, j)
-    et = None if first is None else first
-    if X.queryTaggedValue('t') != et:
-        return ('queryTaggedValue', i, X.queryTaggedValue('t'), et)
+    et = 'ABSENT' if first is None else tagval(first)
+    if X.queryTaggedValue('t', 'ABSENT') != et:
+        return ('queryTaggedValue', i, X.queryTaggedValue('t', 'ABSENT'), et)
     try:
         gt = X.getTaggedValue('t')
     except KeyError:
-        gt = None
+        gt = 'ABSENT'
     if gt != et:
         return ('getTaggedValue', i, gt, et)
     if X.queryTaggedValue('nope', 'dflt') != 'dflt':
@@ -104,7 +154,7 @@ def check_node(I, defs, i, iro):
             exptags |= {'t', 'only%d' % j, 'invariants'}
     if set(X.getTaggedValueTags()) != exptags:
         return ('getTaggedValueTags', i, sorted(X.getTaggedValueTags()), sorted(exptags))
-    if X.queryDirectTaggedValue('t') != (i if defs[i] else None):
+    if X.queryDirectTaggedValue('t', 'ABSENT') != (tagval(i) if defs[i] else 'ABSENT'):
         return ('queryDirectTaggedValue', i)
     del CALLS[:]
     errs = []
@@ -158,18 +208,49 @@ def reach(I, s):
 
 
 def eval_case(case):
-    dag, defs, hist, warm = case
-    I = build(dag, defs)
+    dag, defs, hist, warm = case[:4]
+    obs = case[4] if len(case) > 4 else None
+    I, O, mod = build(dag, defs, obs)
     if warm:
         v = check_all(I, defs)       # fills the caches before the rebasing
         if v:
             return v
-    for k, bs in hist:
-        new = tuple(I[b] for b in bs) or (Interface,)
-        for b in new:
-            if any(x is I[k] for x in reach(I, b)):
-                return 'disabled'
-        I[k].__bases__ = new
+    if O:
+        O.armed = True
+    for op in hist:
+        if op[0] == 'swap':
+            # replace node k, in every interface that lists it as a base, by a
+            # twin: a distinct interface with the same name, module and bases
+            # (as a module reload produces) and its own definitions
+            k = op[1]
+            twin = mknode(I, k, [_idx(I, b) for b in I[k].__bases__ if b is not Interface],
+                          defs, mod, label=' (twin)')
+            old = I[k]
+            I[k] = twin
+            for c in list(I):
+                if any(b is old for b in c.__bases__):
+                    c.__bases__ = tuple(twin if b is old else b for b in c.__bases__)
+        else:
+            k, bs = op
+            new = tuple(I[b] for b in bs) or (Interface,)
+            for b in new:
+                if any(x is I[k] for x in reach(I, b)):
+                    return 'disabled'
+            try:
+                I[k].__bases__ = new
+            except Boom:
+                # propagation stopped at the observer: interfaces further down
+                # were not told (no transactional semantics are promised), but
+                # the re-based interface and the observed one had completed
+                # their own update and must answer consistently
+                for j in {k, O.k}:
+                    iro = [_idx(I, x) for x in I[j].__iro__ if x is not Interface]
+                    v = check_node(I, defs, j, iro)
+                    if v:
+                        return ('after-failed-notification:' + v[0],) + tuple(v[1:])
+                return None
+        if O and O.seen:
+            return ('inside-notification:' + O.seen[0],) + tuple(O.seen[1:])
         if warm == 2:
             v = check_all(I, defs)
             if v:
@@ -189,9 +270,13 @@ def evaluate(arg):
         if sum(case[1]) >= 2:
             nontriv += 1
         if v:
-            viol.append(dict(sig='C15:' + v[0], case=dict(case=case),
+            sig = 'C15:' + v[0]
+            if len(case) > 5 and case[5] == 'twin-then-rebase':
+                sig = 'C15:twin-of-a-live-dependent-misses-change-notifications'
+            viol.append(dict(sig=sig, case=dict(case=case),
                              detail=dict(dag=case[0], defines=case[1], rebasing=case[2],
-                                         queried_before=case[3], violation=v)))
+                                         queried_before=case[3], observer=case[4] if len(case) > 4 else None,
+                                         violation=v)))
         if n % 500 == 0:
             gc.collect()
     gc.collect()
@@ -232,6 +317,30 @@ def run(ctx):
                 if len(h) == 2 and not quick and h[0][0] == h[1][0]:
                     continue
                 cases.append((dag, defs, h, 2 if len(h) == 2 else 1))
+    # twins swapped in (warm caches), alone and followed by one more rebasing
+    for dag in gen.dags(rn, 2):
+        for defs in itertools.product((0, 1), repeat=rn):
+            if sum(defs) < 1:
+                continue
+            for k in range(rn):
+                cases.append((dag, defs, (('swap', k),), 1))
+                for o in ops[::3]:
+                    cases.append((dag, defs, (o, ('swap', k)), 2))
+                    # a re-basing *after* the swap is a family of its own: the
+                    # twin is equal to the interface it replaces, and change
+                    # notifications are keyed by equality (known finding)
+                    cases.append((dag, defs, (('swap', k), o), 2, None, 'twin-then-rebase'))
+    # an observer subscribed to a node looks at it from inside the notification,
+    # or raises there (propagation stops; everything must stay self-consistent)
+    for dag in gen.dags(rn, 2):
+        for defs in itertools.product((0, 1), repeat=rn):
+            if sum(defs) < 2:
+                continue
+            for o in ops:
+                for k in range(rn):
+                    for mode in ('look', 'raise'):
+                        for pos in ('first', 'last'):
+                            cases.append((dag, defs, (o,), 1, (mode, k, pos)))
     for impl in ('c', 'py'):
         res = ctx.map(impl, 'evaluate', chunks(cases, 500))
         for r in res:
